@@ -30,15 +30,13 @@ def AbsL (L : Layout) (s : State) : Prop := ∀ x, x ∈ s.absorbed → ∃ m, m
 
 theorem addPhase2_absorbed_sub {extra : List Key} (s : State) (k : Key) (m : Mapping) (h : IInv extra s) (x : Key)
     (hx : x ∈ (addPhase2 s k m).1.absorbed) : x ∈ s.absorbed := by
-  cases ha : producesActionKey m
-  · rw [addPhase2_nonaction s k m ha] at hx; exact hx
-  · have hf := releaseActionMappings_frame s
-    cases hb : shouldAbsorb s k
-    · rw [addPhase2_noabsorb s k m ha hb, hf.2.2.1] at hx; exact hx
-    · rw [addPhase2_absorb s k m ha hb] at hx
-      have := (releaseAbsorbedKeys_spec _ (releaseActionMappings_spec h).1).2.2.1
-      change x ∈ (releaseAbsorbedKeys (releaseActionMappings s).1).1.absorbed at hx
-      rw [this] at hx; simp at hx
+  have hf := ramIf_frame m s
+  cases hb : absorbsNow s k m
+  · rw [addPhase2_skip s k m hb, hf.2.2.1] at hx; exact hx
+  · rw [addPhase2_run s k m hb] at hx
+    have := (releaseAbsorbedKeys_spec _ (ramIf_spec m h).1).2.2.1
+    change x ∈ (releaseAbsorbedKeys (ramIf m s).1).1.absorbed at hx
+    rw [this] at hx; simp at hx
 
 theorem addNewMapping_absorbed_sub (s : State) (k : Key) (m : Mapping) (h : IInv [] s) (x : Key)
     (hx : x ∈ (addNewMapping s k m).1.absorbed) : x ∈ s.absorbed ∨ x ∈ m.absorbing := by
@@ -155,19 +153,20 @@ theorem addNewMapping_foreign_pass (s : State) (k0 : Key) (m : Mapping) (h : IIn
   -- phase 2
   have p2 : (k ∈ (addPhase2 (afterConsume s m) k0 m).1.pass ↔ k ∈ (afterConsume s m).pass) ∧
       k ∉ (addPhase2 (afterConsume s m) k0 m).1.mapped := by
-    cases hact : producesActionKey m
-    · rw [addPhase2_nonaction _ k0 m hact]; exact ⟨Iff.rfl, hm1⟩
-    · have r1 := ram_pass (afterConsume s m) k hm1 c1
-      have hr1 := (releaseActionMappings_spec c1)
-      have hm2 : k ∉ (releaseActionMappings (afterConsume s m)).1.mapped := fun hh => hm1 (hr1.2.mappedSub k hh)
-      cases hb : shouldAbsorb (afterConsume s m) k0
-      · rw [addPhase2_noabsorb _ k0 m hact hb]; exact ⟨r1, hm2⟩
-      · rw [addPhase2_absorb _ k0 m hact hb]
-        have hf := releaseActionMappings_frame (afterConsume s m)
-        have r2 := releaseAbsorbedKeys_pass (releaseActionMappings (afterConsume s m)).1 k
-          (by rw [hf.2.2.1]; exact ha) hm2 hr1.1
-        have r3 := afterConsume_pass (releaseAbsorbedKeys (releaseActionMappings (afterConsume s m)).1).1 m k h1 h2
-        exact ⟨r3.1.trans (r2.1.trans r1), fun hh => r2.2 (r3.2.mp hh)⟩
+    have r1 : k ∈ (ramIf m (afterConsume s m)).1.pass ↔ k ∈ (afterConsume s m).pass := by
+      cases hact : producesActionKey m
+      · rw [ramIf_false m _ hact]
+      · rw [ramIf_true m _ hact]; exact ram_pass (afterConsume s m) k hm1 c1
+    have hr1 := ramIf_spec m c1
+    have hm2 : k ∉ (ramIf m (afterConsume s m)).1.mapped := fun hh => hm1 (hr1.2.mappedSub k hh)
+    cases hb : absorbsNow (afterConsume s m) k0 m
+    · rw [addPhase2_skip _ k0 m hb]; exact ⟨r1, hm2⟩
+    · rw [addPhase2_run _ k0 m hb]
+      have hf := ramIf_frame m (afterConsume s m)
+      have r2 := releaseAbsorbedKeys_pass (ramIf m (afterConsume s m)).1 k
+        (by rw [hf.2.2.1]; exact ha) hm2 hr1.1
+      have r3 := afterConsume_pass (releaseAbsorbedKeys (ramIf m (afterConsume s m)).1).1 m k h1 h2
+      exact ⟨r3.1.trans (r2.1.trans r1), fun hh => r2.2 (r3.2.mp hh)⟩
   have d1 := (addPhase2_spec (afterConsume s m) k0 m c1).1
   have p3 := pressAll_pass (addPhase2 (afterConsume s m) k0 m).1 m.to k h2
   have hpass3 : (addPhase3 (addPhase2 (afterConsume s m) k0 m).1 k0 m).1.pass =
